@@ -113,6 +113,12 @@ def run(ctx):
         kw = dict(n=n, r=r, step_ratio=ratio, num_extrap=ne, full_output=True)
         if default_r and rng.random() < 0.5:
             kw = dict(n=n, full_output=True)
+        if rng.random() < 0.25:
+            # an explicit iteration cap (documented: min_iter then defaults to max_iter // 2), through taylor() and derivative() alike
+            kw['max_iter'] = rng.choice([40, 60, 45])
+            if rng.random() < 0.5:
+                kw['r'], kw['n'] = 10.0 ** rng.uniform(-5.5, -4), rng.choice([13, 20, 27, n])
+                n = kw['n']
         rep = dict(f=name, z0=str(z0), **{k: v for k, v in kw.items() if k != 'full_output'})
         ctx.tried(tuple(sorted((k, str(v)) for k, v in rep.items())))
         flags = []
@@ -147,7 +153,7 @@ def run(ctx):
         try:
             with warnings.catch_warnings():
                 warnings.simplefilter('ignore')
-                if hasattr(fb, 'Taylor') and rng.random() < 0.3:
+                if hasattr(fb, 'Taylor') and 'max_iter' not in kw and rng.random() < 0.3:
                     # one Taylor object, used before with another number of coefficients (and other options) at another point, then
                     # reconfigured by attribute assignment: the result is that of the final configuration
                     n0 = rng.choice([1, 4, 12, 30, 70])
@@ -174,14 +180,14 @@ def run(ctx):
             continue
         # the iteration loop against the model
         if cc is not None:
-            loop_jobs.append((list(flags), bool(info.failed)))
+            loop_jobs.append((list(flags), bool(info.failed), int(kw.get('max_iter', 30))))
             if cf is not None and pc is not None and len(rad_inputs) == len(flags):
                 rad_jobs.append((int(kw.get('num_extrap', 3)), [list(t) for t in rad_inputs], list(flags), list(state_after), rep))
-            if bool(info.failed) != (not any(flags)) or (info.failed and len(flags) != 30):
+            if bool(info.failed) != (not any(flags)) or (info.failed and len(flags) != kw.get('max_iter', 30)):
                 ctx.violation('failed is not set exactly when the iteration cap was reached', failed=bool(info.failed), iterations_run=len(flags),
                               converged_flags=str(flags[-5:]), **rep)
         d = dist(z0)
-        if 'r' not in kw and n <= 20 and d > 1.5 and not name.startswith('poly') and (info.degenerate or info.failed):
+        if 'r' not in kw and 'max_iter' not in kw and n <= 20 and d > 1.5 and not name.startswith('poly') and (info.degenerate or info.failed):
             ctx.violation('default radius, n <= 20, analytic within 1.5: reported degenerate or failed', degenerate=bool(info.degenerate),
                           failed=bool(info.failed), signature=None, **rep)
         if info.degenerate or info.failed:
@@ -206,7 +212,7 @@ def run(ctx):
                           final_radius=R, distance_to_singularity=d, signature=sig, **rep)
             continue
         # derivative = coefficients * k!
-        if it % 4 == 0:
+        if it % 4 == 0 or 'max_iter' in kw:
             with warnings.catch_warnings():
                 warnings.simplefilter('ignore')
                 dv, dinfo = fb.derivative(f, z0, **kw)
@@ -215,8 +221,8 @@ def run(ctx):
             if len(dv) < n + 1 or not (np.allclose(dv[:mm], np.asarray(c)[:mm] * fact, rtol=1e-12, atol=0) and
                     np.allclose(dinfo.error_estimate[:mm], np.asarray(info.error_estimate)[:mm] * fact, rtol=1e-12, atol=0)):
                 ctx.violation('derivative() is not taylor() times k! (values or error estimates)', **rep)
-    louts = run_driver(['tloop 30 %s' % ' '.join('1' if v else '0' for v in fl) for fl, _f in loop_jobs], 'C17t') if loop_jobs else []
-    for (fl, failed), line in zip(loop_jobs, louts):
+    louts = run_driver(['tloop %d %s' % (mi, ' '.join('1' if v else '0' for v in fl)) for fl, _f, mi in loop_jobs], 'C17t') if loop_jobs else []
+    for (fl, failed, _mi), line in zip(loop_jobs, louts):
         leng['cases'] += 1
         w = line.split()
         model_failed = w[1] == '1'
